@@ -36,6 +36,7 @@ func ruleC19(c *Check) {
 	c.paramSetExact("C19.8")
 	c.genesisImportsAll("C19.5")
 	c.siblingBounds("C19.6")
+	c.genesisNotStricterThanMessages("C19.6")
 	c.addressRoles("C19.9")
 }
 
@@ -1178,4 +1179,99 @@ func (c *Check) siblingBounds(rule string) {
 			"validators that bound a value by "+strings.TrimPrefix(k, "#")+" reject under the same comparison"+condStr(!ok, ": "+strings.Join(fl, "  vs  ")))
 	}
 	c.req(nShared >= 1, rule, "shared-bounds", token.NoPos, fmt.Sprintf("%d named constants bound values in more than one validator", nShared))
+}
+
+// genesisNotStricterThanMessages (C19.6): "the genesis exported afterwards always passes genesis validation" — for values that
+// reach the store straight from a message, genesis validation may reject only what the message's own stateless validation
+// rejects. Instance decided here: a withdrawal address. Every rejecting exit of ValidateGenesis whose cause mentions the value
+// under the cursor of GenesisState.WithdrawAddresses is either the failure of a validator that
+// MsgSetWithdrawAddress.ValidateBasic applies to its WithdrawAddress field, or a condition under which such a validator itself
+// rejects (with the value abstracted). A further requirement (exactly twenty bytes) makes a state reachable by messages
+// unimportable.
+func (c *Check) genesisNotStricterThanMessages(rule string) {
+	vg := c.mustFn(rule, c.typesName("ValidateGenesis"))
+	vb := c.P.FuncNamed("types.MsgSetWithdrawAddress.ValidateBasic")
+	if vg == nil || vb == nil {
+		if vb == nil {
+			c.undecided(rule, "types.MsgSetWithdrawAddress.ValidateBasic", token.NoPos, "message validator not found")
+		}
+		return
+	}
+	lastFact := func(pa *Path) *Event {
+		var last *Event
+		for _, ev := range pa.Events {
+			if ev.Kind == EvFact {
+				last = ev
+			}
+		}
+		return last
+	}
+	allowed := map[string]bool{}
+	fldT := field("MsgSetWithdrawAddress", "WithdrawAddress", atom("Precv"))
+	var validators []*Func
+	for _, pa := range c.P.PathsOf(vb) {
+		note := func(t *Term) {
+			t = stripConv(t)
+			if t != nil && len(t.A) == 1 && stripConv(t.A[0]).Eq(fldT) {
+				if g := c.P.FuncNamed(t.Op); g != nil && g.Body != nil {
+					validators = append(validators, g)
+					allowed[Fact{T: mk("ok", mk(t.Op, atom("$V"))), Neg: true}.String()] = true
+				}
+			}
+		}
+		for _, ev := range pa.Events {
+			if ev.Kind == EvCall && len(ev.CI.args) == 1 {
+				note(mk(ev.CI.name, ev.CI.args[0]))
+			}
+		}
+		for _, r := range pa.Ret {
+			note(r)
+		}
+	}
+	for _, g := range validators {
+		for _, pa := range c.P.PathsOf(g) {
+			if pa.Exit != ExitRevert {
+				continue
+			}
+			if lf := lastFact(pa); lf != nil {
+				allowed[strings.ReplaceAll(lf.Fact.String(), "P0", "$V")] = true
+			}
+		}
+	}
+	n := 0
+	var bad []string
+	var badPos token.Pos
+	for _, pa := range c.P.PathsOf(vg) {
+		if pa.Exit != ExitRevert {
+			continue
+		}
+		lf := lastFact(pa)
+		if lf == nil {
+			continue
+		}
+		var val *Term
+		lf.Fact.T.Walk(func(t *Term) bool {
+			if t.Op == "elem" && len(t.A) == 1 && strings.HasSuffix(stripConv(t.A[0]).Op, ".GenesisState.WithdrawAddresses") {
+				val = t
+			}
+			return true
+		})
+		if val == nil {
+			continue
+		}
+		n++
+		k := strings.ReplaceAll(lf.Fact.String(), val.String(), "$V")
+		if !allowed[k] {
+			bad = append(bad, k)
+			badPos = lf.Pos
+		}
+	}
+	sort.Strings(bad)
+	c.Sites += n
+	pos := vg.Body.Pos()
+	if len(bad) > 0 {
+		pos = badPos
+	}
+	c.req(len(validators) >= 1 && len(bad) == 0, rule, vg.Name+"#withdraw-address-not-stricter", pos,
+		fmt.Sprintf("genesis validation rejects a withdrawal address only where the set-withdraw-address message's own validation does (%d rejecting exits on the value)", n)+condStr(len(bad) > 0, ": additional rejection under "+strings.Join(uniq(bad), " ; ")))
 }
